@@ -5,7 +5,9 @@ All numbers are exact rationals `p/q` (`R` lines).
 
 Common fields
   CHANS    channel specs joined by `;`, each `KIND:WIDTH:GAMMA:RHO:ALPHA:BETA` with
-           KIND = `fuzzy` (FuzzyART; `dim_original` = WIDTH/2) | `art2a` (ART2A)
+           KIND = `fuzzy` (FuzzyART; `dim_original` = WIDTH/2; weight length WIDTH)
+                | `art2a` (ART2A; weight length WIDTH)
+                | `art1` (ART1; the ALPHA field carries `L`, BETA is ignored; weight length 2*WIDTH)
   SKIP     comma-joined channel numbers, negative ones allowed (`-` = none)
   vectors  comma-joined, matrices = rows joined by `|`, `-` = empty
 
@@ -31,7 +33,7 @@ Common fields
 
     fusion regr CHANS TARGETS W X
         `predict_regression(X, TARGETS)` with centres for identity column bounds
-        (fuzzy: `(w[:d] + 1 - w[d:]) / 2`, art2a: `w`)
+        (fuzzy: `(w[:d] + 1 - w[d:]) / 2`, art2a: `w`, art1: the top-down half `w[dim:]`)
       output  `regr=<row>|<row>…`, a row = the target centres joined by `;`, `err` = IndexError
 -/
 import ArtModel.Driver
@@ -52,20 +54,21 @@ structure ChanSpec where
 def parseChanSpec (s : String) : Option ChanSpec := do
   match s.splitOn ":" with
   | [kind, w, g, rho, al, be] =>
-    if kind != "fuzzy" && kind != "art2a" then none
+    if kind != "fuzzy" && kind != "art2a" && kind != "art1" then none
     else some ⟨kind, ← w.toNat?, ← parseRat g, ← parseRat rho, ← parseRat al, ← parseRat be⟩
   | _ => none
 
 def parseChans (s : String) : Option (List ChanSpec) := (splitList s ";").mapM parseChanSpec
 
 def ChanSpec.toChan (c : ChanSpec) : Chan Rat :=
-  if c.kind == "fuzzy" then ⟨fuzzyKernel c.alpha c.beta ((c.width / 2 : Nat) : Rat), c.width, c.gamma⟩
-  else ⟨art2Kernel c.alpha c.beta, c.width, c.gamma⟩
+  if c.kind == "fuzzy" then ⟨fuzzyKernel c.alpha c.beta ((c.width / 2 : Nat) : Rat), c.width, c.gamma, c.width⟩
+  else if c.kind == "art1" then ⟨art1Kernel c.alpha c.width, c.width, c.gamma, 2 * c.width⟩
+  else ⟨art2Kernel c.alpha c.beta, c.width, c.gamma, c.width⟩
 
 /-- weight-to-centre map of channel `k` for identity column bounds -/
 def specCentre (cs : List ChanSpec) (k : Nat) (w : List Rat) : List Rat :=
   match cs[k]? with
-  | some c => if c.kind == "fuzzy" then fuzzyCentre w else w
+  | some c => if c.kind == "fuzzy" then fuzzyCentre w else if c.kind == "art1" then w.drop c.width else w
   | none => w
 
 def parseInts (s : String) : Option (List Int) := (splitList s).mapM String.toInt?
@@ -87,7 +90,7 @@ def parseFCall (s : String) : Option FCall := do
   | ["pred", xs, sk] => some (.pred (← parseMat xs) (← parseInts sk))
   | _ => none
 
-def showFusionState (ws : List Nat) (s : ArtState (List Rat)) : String :=
+def showFusionState (ws : List Nat) (s : ArtState (List Rat)) : String :=  -- `ws` = weight lengths
   let chW (k : Nat) : String := showMat (chanState ws k s).W
   let ch := ";".intercalate ((List.range ws.length).map chW)
   s!"W={showMat s.W} cnt={showNats s.cnt} n={s.n} labels={showNats s.labels} ch={ch}"
@@ -95,7 +98,7 @@ def showFusionState (ws : List Nat) (s : ArtState (List Rat)) : String :=
 def runFusion (chans : List (Chan Rat)) (cfg : SearchCfg (List Rat) (List Rat)) (th0 : List Rat)
     (vetoTab : Option (List (List Bool))) (calls : List FCall) : List String :=
   let K := fusionKernel chans
-  let ws := widths chans
+  let ws := wlens chans
   let veto (g base : Nat) : ArtState (List Rat) → List Rat → Nat → Bool := fun s _ c =>
     match vetoTab with
     | none => false
